@@ -22,7 +22,7 @@ func init() {
 		Explain: "Decides, for every registered render function of the module (core and extensions) and every helper that receives the output writer, in the safe configuration: (S) every byte reaching the writer is a constant, an integer, renderer configuration, or has passed util.EscapeHTML/EscapeHTMLByte or html.Writer.Write/RawWrite — with two reviewed, separately checked exceptions (attribute names, code-flagged String nodes); (U) raw node bytes are written only under the Unsafe flag; (C) by a character-level HTML lexer run over the constant writes along every CFG path: inside a double-quoted attribute value only escaped/integer/config data or constants free of '<' and '\"' are written, inside a tag only constants/integers/attribute names, every render function starts and ends in text state; (V) the tag vocabulary is closed, the only comment is the placeholder, no bare '&'; (T) the escape table is exactly \" & < >; (E) the sanitisers examine every byte (their scanning loops step by exactly one) and the text writer emits only through the sanitiser; (N) attribute names produced by the parser are restricted to a safe alphabet (predicates evaluated for all 256 bytes). Does NOT decide proper nesting/closing of elements across different nodes of an arbitrary tree, nor XML well-formedness of character data.",
 		Trusted: []string{"bodies of util.EscapeHTML/EscapeHTMLByte and defaultWriter.RawWrite beyond the shape rules C03-E/T", "bufio.Writer"},
 		Assumes: []string{"renderer configuration (options, hook functions, typographer substitutions) is trusted", "user-supplied renderers/extensions out of scope"},
-		Rules:   []func(*World, *Report){ruleSinkDiscipline, ruleVocabulary, ruleEscapeTable, ruleSanitiserLoops, ruleResolvingWriter, ruleAttrNameProducers, ruleStringProducers},
+		Rules:   []func(*World, *Report){ruleSinkDiscipline, ruleVocabulary, ruleEscapeTable, ruleSanitiserLoops, ruleResolvingWriter, ruleAttrNameProducers, ruleStringProducers, ruleOptionValueStored},
 	})
 }
 
@@ -700,6 +700,7 @@ func ruleSanitiserLoops(w *World, r *Report) {
 		} else {
 			r.Bad(key+": table consulted for every index", w.FnPos(fn), "some cycle of the loop does not look source[i] up in the escape table")
 		}
+		w.checkEscapeAlwaysWritten(r, fn, lp, src, idx, tblG, escByte)
 	}
 	// html.Writer.Write: no raw BufWriter sink with tainted data
 	sa := w.Sinks()
@@ -735,6 +736,99 @@ func ruleSanitiserLoops(w *World, r *Report) {
 		}
 	}
 	r.Expect("html.Writer Write/RawWrite implementations", nW, 1)
+}
+
+// checkEscapeAlwaysWritten (C03-E, third clause): once the lookup of source[i] has returned an escape, the cycle cannot
+// get back to the loop header (or leave the loop) without having handed that escape to a call — a "do not escape
+// twice" shortcut that skips the replacement when the following bytes look like a character reference lets
+// source-controlled '&'-sequences through verbatim.
+func (w *World) checkEscapeAlwaysWritten(r *Report, fn *ssa.Function, lp Loop, src *ssa.Parameter, idx ssa.Value, tblG *ssa.Global, escByte *ssa.Function) {
+	key := w.FnKey(fn) + ": a found escape is always written"
+	// lookup values in the loop
+	var lookups []ssa.Value
+	for b := range lp.Body {
+		for _, ins := range b.Instrs {
+			switch x := ins.(type) {
+			case *ssa.UnOp:
+				if ia, ok := x.X.(*ssa.IndexAddr); ok && x.Op == token.MUL && tblG != nil && ia.X == ssa.Value(tblG) {
+					lookups = append(lookups, x)
+				}
+			case *ssa.Call:
+				if escByte != nil && x.Common().StaticCallee() == escByte {
+					lookups = append(lookups, x)
+				}
+			}
+		}
+	}
+	isLookup := func(v ssa.Value) bool {
+		for _, l := range lookups {
+			if l == v {
+				return true
+			}
+		}
+		return false
+	}
+	usesLookup := func(v ssa.Value) bool {
+		found := false
+		operandsClosure(v, func(x ssa.Value) bool {
+			if isLookup(x) {
+				found = true
+			}
+			return !found
+		})
+		return found
+	}
+	n := 0
+	for b := range lp.Body {
+		iff, ok := b.Instrs[len(b.Instrs)-1].(*ssa.If)
+		if !ok {
+			continue
+		}
+		x, isNil, isT := nilTest(iff.Cond)
+		if !isT || !isLookup(x) {
+			continue
+		}
+		n++
+		start := b.Succs[0] // non-nil edge
+		if isNil {
+			start = b.Succs[1]
+		}
+		// search for a way from the non-nil edge back to the header or out of the loop that passes no call taking the escape
+		seen := map[*ssa.BasicBlock]bool{}
+		var leak *ssa.BasicBlock
+		var dfs func(c *ssa.BasicBlock)
+		dfs = func(c *ssa.BasicBlock) {
+			if leak != nil || seen[c] {
+				return
+			}
+			seen[c] = true
+			if c == lp.Header || !lp.Body[c] {
+				leak = c
+				return
+			}
+			for _, ins := range c.Instrs {
+				if call, ok := ins.(ssa.CallInstruction); ok {
+					for _, a := range call.Common().Args {
+						if usesLookup(a) {
+							return // the escape is written on this way
+						}
+					}
+				}
+			}
+			for _, s := range c.Succs {
+				dfs(s)
+			}
+		}
+		dfs(start)
+		if leak != nil {
+			r.Bad(key, w.InstrPos(iff), "after the escape table returned a replacement for source[i] the loop can continue without writing it (some other condition decides): the byte stays in the pending range and is copied verbatim")
+		} else {
+			r.OK(key, w.InstrPos(iff), "every way from the non-nil lookup to the next cycle passes a call that receives the replacement")
+		}
+	}
+	if n == 0 {
+		r.Unknown(key, w.FnPos(fn), "no nil test of the lookup result found in the loop")
+	}
 }
 
 // isExaminedRange: in RawWrite, writer.Write(source[i-n:i]) / source[l-n:] where n is a header phi that
